@@ -77,21 +77,24 @@ def overlayLookup {β : Type} (ops : Ops β) (out : Nat) : List (Op β) → Coor
     | .err => .err
     | .panic => .panic
 
-/-- bounding box of the still empty slots (from_overlayed.rs:107-114):
-    `new_empty(level).unwrap()`, then `include_coord3(get_coord3_by_index(i).unwrap()).unwrap()` -/
+/-- one step of the loop that computes the bounding box of the still empty slots:
+    `include_coord3(get_coord3_by_index(i).unwrap()).unwrap()` for an empty slot -/
+def leftStep {γ : Type} (cell : BBox) (slots : List (Option γ)) (acc : Outcome BBox) (i : Nat) : Outcome BBox :=
+  match acc with
+  | .ok bl =>
+    match slots[i]? with
+    | some none =>
+      match cell.coordByIndex i with
+      | .ok c => .ok (bl.includeCoord c.1 c.2)
+      | _ => .panic
+    | _ => .ok bl
+  | e => e
+
+/-- bounding box of the still empty slots (from_overlayed.rs:107-114), starting from
+    `new_empty(level).unwrap()` -/
 def bboxLeft {γ : Type} (cell : BBox) (slots : List (Option γ)) : Outcome BBox :=
   match BBox.newEmpty cell.level with
-  | .ok e =>
-    (List.range slots.length).foldl (fun acc i =>
-      match acc with
-      | .ok bl =>
-        match slots[i]? with
-        | some none =>
-          match cell.coordByIndex i with
-          | .ok c => .ok (bl.includeCoord c.1 c.2)
-          | _ => .panic
-        | _ => .ok bl
-      | e => e) (.ok e)
+  | .ok e => (List.range slots.length).foldl (leftStep cell slots) (.ok e)
   | _ => .panic
 
 /-- `for_each_sync` body (from_overlayed.rs:123-129): `get_tile_index3(&coord).unwrap()`,
@@ -140,11 +143,16 @@ def concatMapO {α γ : Type} (f : α → Outcome (List γ)) : List α → Outco
     | .err => .err
     | .panic => .panic
 
+/-- `bbox.iter_bbox_grid(32).collect()`; for an empty box (any encoding) the iterator is empty
+    at once (see `coords3`), the guard only avoids walking an x-empty meta box -/
+def grid32 (b : BBox) : Outcome (List BBox) :=
+  if b.isEmpty then .ok [] else b.iterBBoxGrid 32
+
 /-- `get_tile_stream` of from_overlayed: `iter_bbox_grid(32)`, per cell a slot vector of
     `count_tiles` entries, output `tiles.into_iter().flatten()` -/
 def overlayStream {β : Type} (ops : Ops β) (out : Nat) (srcs : List (Op β)) (b : BBox) :
     Outcome (List (Coord × β)) :=
-  match b.iterBBoxGrid 32 with
+  match grid32 b with
   | .ok cells =>
     concatMapO (fun cell =>
       match overlayCell ops out cell srcs (List.replicate cell.countTiles none) with
@@ -224,7 +232,7 @@ def mergedEmit {β : Type} (ops : Ops β) (cell : BBox) (slots : List (List β))
       | _ => .panic) slots.zipIdx
 
 def mergedStream {β : Type} (ops : Ops β) (srcs : List (Op β)) (b : BBox) : Outcome (List (Coord × β)) :=
-  match b.iterBBoxGrid 32 with
+  match grid32 b with
   | .ok cells =>
     concatMapO (fun cell =>
       match mergedCell ops cell srcs (List.replicate cell.countTiles []) with
